@@ -58,7 +58,10 @@ abbrev DOp := Op World String String Inst String
 
 def mkOp (ty arg x : String) : DOp :=
   { ty := ty, args := arg
-    cb := fun i w => (toString i.serial ++ "/" ++ i.ty ++ "/" ++ i.lang ++ "/" ++ i.arg ++ "/" ++ x, w) }
+    -- x = 666: the callback panics; the caller catches the panic and prints `CBPANIC` (the formatter constructed
+    -- for this lookup was inserted BEFORE the callback ran, so it stays cached)
+    cb := fun i w => (if x == "666" then "CBPANIC"
+                      else toString i.serial ++ "/" ++ i.ty ++ "/" ++ i.lang ++ "/" ++ i.arg ++ "/" ++ x, w) }
 
 def isHexTok (s : String) : Bool := (hexDecode s).isSome
 
@@ -106,6 +109,7 @@ def parseMOp (conc : Bool) (op : String) : Option DMOp :=
   | ["new", l] => if validLang l then some (.newLang l) else none
   | ["drop", h] => (canonNat h).map fun n => .drop n
   | ["get", h, ty, arg, x, via] =>
+    if conc && x == "666" then none else     -- a panicking callback would poison the concurrent memoizer's mutex
     match canonNat h, parseLookup ty arg x via with
     | some n, some o => some (.lookup n o)
     | _, _ => none
